@@ -13,7 +13,7 @@ SPEC = {
              "propose_transfer (single/multi-output change, every LockedInputPolicy variant, ConfirmationsPolicy 1..10 "
              "trusted<=untrusted, pool subsets, transparent spend policies, 1-3 payments incl. TEX), "
              "propose_send_max_transfer (both modes), propose_shielding, each with or without a LockRequest; every mined "
-             "wallet shielding transaction is followed by four send-max requests one or two blocks apart under a policy whose "
+             "wallet shielding transaction is followed by six requests (send-max and transfers sized against the model, alternating) one or two blocks apart under a policy whose "
              "untrusted depth lies just beyond the depth of the newest shielded coin. Amounts are "
              "chosen against the model: random, near the eligible total, eligible+1, eligible + an ineligible note, the "
              "value of an ineligible note, canonical ZIP 318 denominations, above the upper bound. Returned proposals are "
@@ -42,7 +42,8 @@ SPEC = {
                   "constructor_guard_chain_double_spend_probes": 150, "constructor_guard_proto_double_spend_probes": 150,
                   "constructor_guard_step_double_spend_probes": 5, "constructor_guard_forward_reference_probes": 5,
                   "trust_marks_set_or_cleared": 40, "trust_marks_on_part_of_a_shielding_transactions_inputs": 5,
-                  "sendmax_followups_of_a_mined_shielding_transaction": 60,
+                  "sendmax_followups_of_a_mined_shielding_transaction": 50,
+                  "transfer_followups_of_a_mined_shielding_transaction": 50,
                   "proposals_with_shielding_output_shallow_only_by_its_coins": 40,
                   "inputs_checked": 1500, "inputs_checked_transparent": 80, "witness_verifications": 800,
                   "step_balances_checked": 200, "request_above_upper_bound_refused": 20,
@@ -70,7 +71,8 @@ SPEC = {
                      "advances_to_expiry_boundary": 100, "bystander_locks_before_store": 600, "pending_transactions_spending_coins": 100,
                      "pending_stored_fabricated_orchard_family": 100, "proposals_on_bucketed_anchor": 10,
                      "proposals_with_shielding_output_shallow_only_by_its_coins": 400,
-                     "sendmax_followups_of_a_mined_shielding_transaction": 600,
+                     "sendmax_followups_of_a_mined_shielding_transaction": 500,
+                     "transfer_followups_of_a_mined_shielding_transaction": 500,
                      "lock_outputs_ok": 800, "unlock_output_calls": 200, "clear_locked_outputs_calls": 100, "rewinds": 80,
                      "diag_sendmax_selection_equals_model": 600, "diag_shielding_selection_equals_model": 300},
     },
